@@ -2,6 +2,7 @@ mod driver;
 mod enumchecks;
 mod proto;
 mod protochecks;
+mod seq_aggregator;
 mod util;
 mod world;
 #[path = "/repo/node/src/config.rs"]
@@ -25,9 +26,25 @@ fn main() {
         },
     };
     driver::panics::install();
+    if args.get(2).map(|s| s.as_str()) == Some("--replay") {
+        let path = args.get(3).cloned().unwrap_or_default();
+        let code = match prop {
+            "C01" | "C02" | "C03" | "C05" | "C09" | "C10" | "C19" => protochecks::replay(prop, &path),
+            _ => {
+                eprintln!("no replay support for {}", prop);
+                2
+            }
+        };
+        std::process::exit(code);
+    }
     let code = match prop {
+        "C01" => protochecks::c01(tier),
         "C02" => protochecks::c02(tier),
+        "C03" => protochecks::c03(tier),
         "C05" => protochecks::c05(tier),
+        "C09" => protochecks::c09(tier),
+        "C10" => protochecks::c10(tier),
+        "C19" => protochecks::c19(tier),
         "C17" => enumchecks::c17(tier),
         "C18" => enumchecks::c18(tier),
         "C20" => enumchecks::c20(tier),
@@ -69,6 +86,23 @@ fn main() {
             let t: u8 = args[6].parse().unwrap();
             let k: u8 = args[7].parse().unwrap();
             let p = args.get(8).map(|s| s.as_str()).unwrap_or("C02");
+            if kind == "solo" {
+                let mut rep = util::Report::new("DEV", tier, "model_checking");
+                let mut sc = proto::solo::default_cfg(who, r, tier);
+                sc.with_votes = t & 1 != 0;
+                sc.with_timeouts = t & 2 != 0;
+                sc.stale_variants = k != 0;
+                if let Some(d) = args.get(9).and_then(|x| x.parse().ok()) {
+                    sc.max_depth = d;
+                }
+                proto::solo::run(&mut rep, p, "dev", sc);
+                for v in &rep.violations {
+                    println!("  finding [{}] {}", v.signature, v.what);
+                    println!("     replay: {}", v.replay["events"]);
+                }
+                println!("{}", serde_json::to_string(&rep.coverage.get("solo_configs").unwrap()[0]["witnesses"]).unwrap());
+                std::process::exit(0);
+            }
             let cfg = match kind {
                 "h4" => proto::cfg_h4(r, t, tier),
                 "h3c" => proto::cfg_h3c(who, r, t, tier),
